@@ -90,7 +90,11 @@ func VerifyFuncX(P *Program, DB *ContractDB, fc *FuncContract, safety bool, excu
 	cond := and(facts...)
 	// axioms
 	envAx := f.baseEnv(st)
+	blob := contractText(DB, fc)
 	for _, ax := range DB.Axioms {
+		if !axiomRelevant(DB, ax, blob) {
+			continue
+		}
 		if pk := P.ByPath[DB.LemmaPkg[ax.Name]]; pk != nil {
 			envAx.pkg = pk.Types
 		}
@@ -341,4 +345,48 @@ func VerifyLemma(P *Program, DB *ContractDB, l *Clause) *FnResult {
 	o.Fn = "lemma"
 	res.Obls = t.obls
 	return res
+}
+
+
+// contractText collects the expression texts of a contract, with the bodies of the predicates it (transitively) uses.
+func contractText(DB *ContractDB, fc *FuncContract) string {
+	var sb strings.Builder
+	add := func(cs []*Clause) {
+		for _, c := range cs {
+			sb.WriteString(c.Expr)
+			sb.WriteByte(' ')
+		}
+	}
+	add(fc.Requires)
+	add(fc.Ensures)
+	for _, cs := range fc.Invariants {
+		add(cs)
+	}
+	for _, l := range fc.Lets {
+		sb.WriteString(l[1])
+		sb.WriteByte(' ')
+	}
+	text := sb.String()
+	seen := map[string]bool{}
+	for changed := true; changed; {
+		changed = false
+		for name, pd := range DB.Preds {
+			if !seen[name] && strings.Contains(text, name+"(") {
+				seen[name] = true
+				text += " " + pd.Body
+				changed = true
+			}
+		}
+	}
+	return text
+}
+
+// axiomRelevant: an axiom is included only where one of the spec functions it constrains is mentioned.
+func axiomRelevant(DB *ContractDB, ax *Clause, blob string) bool {
+	for name := range DB.Specs {
+		if strings.Contains(ax.Expr, name+"(") && strings.Contains(blob, name+"(") {
+			return true
+		}
+	}
+	return false
 }
